@@ -218,7 +218,21 @@ func (v *Vue) evalPipe(ctx VueContext, expr pipeExpr) (any, error) {
 	// Resolve initial value
 	var val any
 	var ok bool
-	val, ok = v.resolveOperand(ctx, expr.initial)
+	if helpers.IsFunctionCall(expr.initial) {
+		// a call as pipe input is evaluated like a call anywhere else: what it fails with
+		// (unknown function, wrong arguments, an error result) fails the render
+		first := classifySegment(expr.initial)
+		if first.typ == segmentFilter && v.callNeedsEvaluator(first) {
+			first = pipeSegment{typ: segmentExpr, expr: first.expr}
+		}
+		var err error
+		if val, err = v.evalSegment(ctx, first, nil, true, false); err != nil {
+			return nil, err
+		}
+		ok = true
+	} else {
+		val, ok = v.resolveOperand(ctx, expr.initial)
+	}
 	if !ok {
 		if len(expr.segments) > 0 {
 			val = nil // Pass nil to first segment filter
